@@ -279,12 +279,32 @@ func Reductions(m Module) []Module {
 	edit := func(f func(x *Module)) {
 		c := cloneModule(m)
 		f(&c)
+		c.FixXEmbeds()
 		out = append(out, c)
 	}
 	if len(m.Pkgs) > 1 {
 		for i := range m.Pkgs {
 			i := i
-			edit(func(x *Module) { x.Pkgs = append(x.Pkgs[:i:i], x.Pkgs[i+1:]...) })
+			edit(func(x *Module) {
+				x.Pkgs = append(x.Pkgs[:i:i], x.Pkgs[i+1:]...)
+				// cross-package embeddings refer to packages by index
+				for pi := range x.Pkgs {
+					for ii := range x.Pkgs[pi].Ifaces {
+						it := &x.Pkgs[pi].Ifaces[ii]
+						var keep []XRef
+						for _, xr := range it.XEmbeds {
+							switch {
+							case xr.Pkg == i:
+							case xr.Pkg > i:
+								keep = append(keep, XRef{Pkg: xr.Pkg - 1, Iface: xr.Iface})
+							default:
+								keep = append(keep, xr)
+							}
+						}
+						it.XEmbeds = keep
+					}
+				}
+			})
 		}
 	}
 	for pi := range m.Pkgs {
@@ -372,6 +392,9 @@ func Reductions(m Module) []Module {
 			for k := range it.Embeds {
 				k := k
 				edit(func(x *Module) { y := &x.Pkgs[pi].Ifaces[ii]; y.Embeds = append(y.Embeds[:k:k], y.Embeds[k+1:]...) })
+			}
+			if len(it.XEmbeds) > 0 {
+				edit(func(x *Module) { x.Pkgs[pi].Ifaces[ii].XEmbeds = nil })
 			}
 			if len(it.Methods)+len(it.Embeds) > 1 || len(it.Methods) > 0 {
 				for k := range it.Methods {
